@@ -408,6 +408,7 @@ fn cmd_replay(args: &[String]) -> i32 {
         "c15w" => props::c16walk::replay15(rp),
         "c02w" => props::c16walk::replay02(rp),
         "c06w" => props::c16walk::replay06(rp),
+        "c01w" => props::c16walk::replay01(rp),
         "maxbatch" => props::maxbatch::replay(rp),
         "c09" => props::image::replay(rp, true),
         "c10" => props::image::replay(rp, false),
